@@ -47,7 +47,7 @@ impl<'a> VxLines<'a> {
         ensures
             old(self)@.len() == 0 ==> r.is_none() && final(self)@ == old(self)@,
             old(self)@.len() > 0 ==> r.is_some() && r.unwrap()@ == old(self)@[0] && final(self)@ == old(self)@.skip(1),
-    { self.it.next() }
+    { unimplemented!() }
 
     /// Iterator::any (operational contract: consumes up to and including the first hit)
     #[verifier::external_body]
@@ -59,13 +59,13 @@ impl<'a> VxLines<'a> {
             !r ==> final(self)@.len() == 0
                 && (forall|i: int, s: &'a str| #![trigger old(self)@[i], call_ensures(f, (s,), false)]
                     0 <= i < old(self)@.len() && s@ == old(self)@[i] ==> call_ensures(f, (s,), false)),
-    { self.it.any(f) }
+    { unimplemented!() }
 
     /// Iterator::count
     #[verifier::external_body]
     pub fn count(self) -> (r: usize)
         ensures r == self@.len()
-    { self.it.count() }
+    { unimplemented!() }
 }
 
 #[verifier::external_body]
